@@ -1,5 +1,7 @@
 package harness
 
+import "fmt"
+
 // Plans for the quiescence properties that share the concurrent cache scenarios:
 // C05 (bookkeeping audit), C06 (event ledger), C04 (size bound).
 
@@ -74,8 +76,54 @@ func concPlan(oracles []string, pbQuick, pbThorough int, post ...string) func(th
 	}
 }
 
+// c05Seq: every operation sequence up to a depth, the audit and the derived views checked in every reached state.
+// The hill climber's sample period is shrunk (small-scope) so that window growth and shrinkage are within the depth;
+// one job reaches a growth step the natural way (a sample period of 10) through a long prefix.
+func c05Seq(thorough bool) []*Job {
+	var jobs []*Job
+	depth, budget := 5, 60
+	if thorough {
+		depth, budget = 7, 900
+	}
+	alpha := []string{"set 1 7", "set 2 1", "set 3 1", "set 4 1", "set 5 1", "set 6 2", "get 1", "get 2", "inv 4", "inv 2", "cleanup"}
+	for _, ss := range []uint64{2, 3} {
+		// maximum 16: the sketch (and with it the climber) starts once half the maximum is used; the step is 1
+		cfg := CacheCfg{MaxWeight: 16, SampleSize: ss}
+		jobs = append(jobs, seqJob(seqParams{Cfg: cfg, Alphabet: alpha, Audit: true}, depth, 8, budget, "states-audited"))
+		pre := [][]string{
+			{"set 1 7", "set 2 1", "set 3 1", "get 2", "cleanup"},
+			{"set 1 7", "set 2 1", "set 3 1", "get 2", "set 4 1"},
+			{"set 2 1", "set 1 7", "set 3 1", "get 2", "get 1", "cleanup"},
+		}
+		jobs = append(jobs, seqJob(seqParams{Cfg: cfg, Alphabet: alpha, Audit: true, Prefixes: pre}, depth-1, 8, budget, "states-audited", "window-grew"))
+	}
+	// natural sample period: 16+1 >= 32/2 initialises the sketch with one linked entry -> period 10
+	nat := []string{"set 1 15", "set 2 1", "set 3 1", "get 2", "cleanup"}
+	for i := 0; i < 9; i++ {
+		nat = append(nat, "get 2")
+	}
+	nat = append(nat, "cleanup")
+	for i := 0; i < 8; i++ {
+		nat = append(nat, fmt.Sprintf("set %d 1", 4+i), fmt.Sprintf("inv %d", 4+i))
+	}
+	jobs = append(jobs, seqJob(seqParams{Cfg: CacheCfg{MaxWeight: 32}, Alphabet: []string{"set 12 1", "set 13 1", "set 1 15", "get 2", "get 1", "inv 1", "inv 2", "cleanup"}, Audit: true, Prefixes: [][]string{nat}}, 3, 4, budget, "states-audited", "window-grew"))
+	// size-bounded and expiring configurations
+	for _, cfg := range []CacheCfg{{MaxSize: 2}, {MaxSize: 3, Expiry: "writing", TTL: 100, ClockStart: 1 << 40}, {MaxWeight: 4, Expiry: "accessing", TTL: 100, ClockStart: 5}} {
+		a := []string{"set 1", "set 2", "set 3", "set 4", "get 1", "get 2", "inv 1", "inv 3", "cleanup", "setmax 1", "setmax 3", "invall"}
+		if cfg.MaxWeight > 0 {
+			a = append(a, "set 1 2", "set 2 0", "set 3 4")
+		}
+		if cfg.Expiry != "" {
+			a = append(a, "adv 60", "adv 100", fmt.Sprintf("adv %d", tickNs))
+		}
+		jobs = append(jobs, seqJob(seqParams{Cfg: cfg, Alphabet: a, Audit: true}, depth-1, 8, budget, "states-audited"))
+	}
+	return jobs
+}
+
 func init() {
-	plans["C05"] = concPlan([]string{"audit"}, 2, 3)
+	c05conc := concPlan([]string{"audit"}, 2, 3)
+	plans["C05"] = func(thorough bool) []*Job { return append(c05conc(thorough), c05Seq(thorough)...) }
 	plans["C06"] = concPlan([]string{"ledger"}, 2, 3)
 	// C04: after the race, three more inserts: a weight total that a lost update left too low (or too high)
 	// shows up as a cache that retains more than its maximum
